@@ -1,5 +1,6 @@
 import VOPyVerif.Drv.Proto
 import VOPyVerif.Model.Acq
+import VOPyVerif.Model.Thompson
 /-! Driver front end for property C07 (acquisition maximisers; what reaches the model).
 
 Numbers are exact rationals, `<vals>` a vector, `<table>` a matrix with one row per objective
@@ -31,6 +32,19 @@ Numbers are exact rationals, `<vals>` a vector, `<table>` a matrix with one row 
   → `err` | `<candidate rows> <objectives> <storesX'> <storesY'>` — `Acq.evaluatingStepDecoupled`
 * `evalallstep <n> <S> <U> <obs (row i = observation of design i, `_` if none)> <samples (mats)>`
   → `err` | `<samples'>` — `Acq.evaluateAllStep`
+
+Thompson-entropy acquisition (`Model/Thompson.lean`; `n` = num_thompson_samples, `m` = out_dim,
+`K` = len(x); a tensor of shape `(n,)*m + (K,)` crosses the boundary flattened in C order as a
+string of `0`/`1`; floats OUT are IEEE-754 bit patterns as decimal naturals, `nan` for NaN):
+* `thcombs <n> <r>`                       → nat lists (`;`-separated) — `Thompson.combinations`
+* `thmask <n> <m> <K> <pareto>`           → `<bits>` — `Thompson.filledMask` flattened; `<pareto>` =
+  one nat list per combination (`;`-separated, `_` = empty set), in `itertools.combinations` order
+* `thsamples <W> <n> <m> <K> <ts>`        → `<bits>` — `Thompson.samplesMask` flattened; `<ts>` = one
+  `n × K` matrix per objective (`|`-separated), Pareto sets by `Pareto.fast (dominates W)`
+* `thprob <n> <m> <K> <bits> <j>`         → `err` | `<prior (K rationals)> <posterior (n rows of K)>` —
+  `Thompson.priorProb` / `Thompson.postProb` (exact)
+* `thval <n> <m> <K> <bits> <j> <cost|none>` → `err` | `<K float bit patterns>` —
+  `Thompson.forward` at `Float` (`cost` = exact rational of `costs[j]`)
 -/
 namespace VOPy.Drv.C07
 open VOPy VOPy.Proto VOPy.Acq
@@ -53,7 +67,56 @@ def zip3 (a : List Nat) (b : List Nat) (c : List Rat) : Option (List Entry) :=
     some (List.zipWith (fun (p : Nat × Nat) v => ⟨p.1, p.2, v⟩) (a.zip b) c)
   else none
 
+def fmtFloat (x : Float) : String := if x.isNaN then "nan" else toString x.toBits.toNat
+
+/-- parse `<n> <m> <K> <bits>` into a mask; the bit string must have exactly `n^m * K` entries -/
+def parseMask (n m k bits : String) : Option (Nat × Nat × Nat × Thompson.Mask) :=
+  match n.toNat?, m.toNat?, k.toNat?, parseBools bits with
+  | some n, some m, some K, some b =>
+    if b.length = n ^ m * K then some (n, m, K, Thompson.maskOfBits n K b.toArray) else none
+  | _, _, _, _ => none
+
+/-- the Thompson ops (added without touching the ops above) -/
+def handleThompson (args : List String) : Option String :=
+  match args with
+  | ["thcombs", n, r] =>
+    match n.toNat?, r.toNat? with
+    | some n, some r => some (fmtList ";" fmtNats (Thompson.combinations n r))
+    | _, _ => some bad
+  | ["thmask", n, m, k, ps] =>
+    match n.toNat?, m.toNat?, k.toNat?, parseNatss ps with
+    | some n, some m, some K, some P =>
+      if P.length ≠ (Thompson.combinations n m).length ∨ P.any (·.any (· ≥ K)) then some bad
+      else some (fmtBools (Thompson.flatten n m K (Thompson.filledMask n m P)))
+    | _, _, _, _ => some bad
+  | ["thsamples", w, n, m, k, ts] =>
+    match parseMat w, n.toNat?, m.toNat?, k.toNat?, parseMats ts with
+    | some W, some n, some m, some K, some T =>
+      if T.length ≠ m ∨ T.any (fun t => t.length ≠ n ∨ t.any (·.length ≠ K)) ∨ W.any (·.length ≠ m)
+      then some bad
+      else some (fmtBools (Thompson.flatten n m K (Thompson.samplesMask W n m K T)))
+    | _, _, _, _, _ => some bad
+  | ["thprob", n, m, k, bits, j] =>
+    match parseMask n m k bits, j.toNat? with
+    | some (n, m, K, mem), some j =>
+      if n = 0 ∨ m ≤ j then some "err"
+      else some (fmtVec ((List.range K).map (Thompson.priorProb n m mem)) ++ " " ++
+        fmtMat ((List.range n).map (fun s => (List.range K).map (Thompson.postProb n m j s mem))))
+    | _, _ => some bad
+  | ["thval", n, m, k, bits, j, c] =>
+    match parseMask n m k bits, j.toNat?,
+        (if c = "none" then some none else (parseRat c).map (fun r => some (ratToFloat r))) with
+    | some (n, m, K, mem), some j, some cost =>
+      match Thompson.forward (α := Float) n m K j mem cost with
+      | none => some "err"
+      | some v => some (fmtList "," fmtFloat v)
+    | _, _, _ => some bad
+  | _ => none
+
 def handle (args : List String) : String :=
+  match handleThompson args with
+  | some r => r
+  | none =>
   match args with
   | ["optd", v, q] =>
     match parseVec v, q.toNat? with
